@@ -81,6 +81,12 @@ def dispatch(E, c, args):
     # ------------------------------------------------------------ Try / FromResidual
     if tc and tc[1] == "Try" and tc[2] == "branch":
         v = E.force_arg(args[0])
+        if isinstance(v, VOpaque):
+            # result of an opaque callee (only error-text paths are opaque): either outcome
+            b = E.fresh("opaque_ok", "bool")
+            i = E.choose([b, z3.Not(b)], "opaque try")
+            return VEnum("ControlFlow", "Continue", [VOpaque(v.tag + "#ok")]) if i == 0 else \
+                VEnum("ControlFlow", "Break", [VEnum("Result", "Err", [VOpaque(v.tag + "#err")])])
         if v.ty == "Result":
             return VEnum("ControlFlow", "Continue", [v.fields[0]]) if v.variant == "Ok" else VEnum("ControlFlow", "Break", [VEnum("Result", "Err", [v.fields[0]])])
         if v.ty == "Option":
@@ -175,6 +181,19 @@ def dispatch(E, c, args):
         if d is not None:
             r = E.run_fn(E.P.fns[d], args)
             return VBool(z3.Not(r.t))
+    if tc and tc[1] and tc[1].startswith("PartialOrd") and tc[2] in ("lt", "le", "gt", "ge") and not isinstance(deref(E, args[0]), (VInt, VBig)):
+        selfty, cargs = tc[0], list(args)
+        while selfty.startswith("&"):
+            # impl PartialOrd<&B> for &A forwards to the referents
+            selfty = re.sub(r"^&(mut )?", "", selfty).strip()
+            cargs = [E.read_ref(a) if isinstance(a, VRef) and isinstance(E.read_ref(a), VRef) else a for a in cargs]
+        d = E.P.resolve("<%s as PartialOrd>::partial_cmp" % selfty)
+        if d is not None:
+            r = E.force_arg(E.run_fn(E.P.fns[d], cargs))
+            if r.variant == "None":
+                return VBool(False)
+            o = r.fields[0].variant
+            return VBool({"lt": o == "Less", "le": o in ("Less", "Equal"), "gt": o == "Greater", "ge": o in ("Greater", "Equal")}[tc[2]])
     if tc and tc[1] in ("Ord", "PartialOrd") or (tc and tc[1] and tc[1].startswith("PartialOrd")):
         a, b = deref(E, args[0]), deref(E, args[1])
         if isinstance(a, (VInt, VBig)) and isinstance(b, (VInt, VBig)):
